@@ -655,6 +655,14 @@ func main() {
 			{"include-before-vars-element", incl("cfg: {name: x}", "${{ vars }}"), incl(anyE, "${{ vars }}")},
 			{"include-two-unknown-elements", incl("cfg: {name: x}", "os: y"), incl(anyE, anyE)},
 		}...)
+		// the outputs of a step that runs a registry image are unknown (it may write to $GITHUB_OUTPUT)
+		stepOut := func(uses, out string) string {
+			return hdr + "    steps:\n      - id: img\n        uses: " + uses + "\n      - run: echo ${{ steps.img.outputs." + out + " }} ${{ steps.img.outputs." + out + " == 'x' }}\n"
+		}
+		sites = append(sites, []struct{ name, precise, loose string }{
+			{"docker-image-step-outputs", stepOut("actions/checkout@v4", "ref"), stepOut("docker://alpine:3.19", "ref")},
+			{"docker-image-step-outputs-any-name", stepOut("actions/checkout@v4", "commit"), stepOut("docker://ghcr.io/owner/img:1", "digest")},
+		}...)
 		// a ROW key that an include element re-defines as an object: with the element's type unknown the
 		// member access on the row key must stay accepted
 		inclRow := func(el string) string {
@@ -741,6 +749,34 @@ func main() {
 					sum.OracleFails = append(sum.OracleFails, failure{What: "the outputs of a local reusable workflow that cannot be read (unknown) instead of declared introduced a diagnostic (" + name + ")",
 						Key: "site-loosening:" + name, Workflow: src, Loosened: src, Where: name + "; callee .github/workflows/build.yaml " + variant, Messages: msgs})
 				}
+			}
+		}
+		// the typed inputs of a local reusable workflow: a value of a known fitting type (precise)
+		// against a value of unknown type (loose), given as one placeholder
+		must(os.WriteFile(callee, []byte("on:\n  workflow_call:\n    inputs:\n      minutes:\n        type: number\n      flag:\n        type: boolean\n      label:\n        type: string\njobs:\n  j:\n    runs-on: ubuntu-latest\n    steps:\n      - run: echo\n"), 0o644))
+		withCall := func(m, f, l string) string {
+			return "on:\n  workflow_dispatch:\n    inputs:\n      minutes:\n        type: number\n      untyped:\n        description: d\njobs:\n  call:\n    uses: ./.github/workflows/build.yaml\n    with:\n      minutes: " + m + "\n      flag: " + f + "\n      label: " + l + "\n"
+		}
+		for _, st := range []struct{ name, precise, loose string }{
+			{"call-input-values-unknown", withCall("${{ 3 }}", "${{ true }}", "${{ 'x' }}"), withCall("${{ fromJSON(vars.X) }}", "${{ fromJSON(vars.Y) }}", "${{ fromJSON(vars.Z) }}")},
+			{"call-input-values-from-event", withCall("${{ fromJSON('3') }}", "${{ 1 == 1 }}", "${{ github.sha }}"), withCall("${{ github.event.client_payload.m }}", "${{ github.event.client_payload.f }}", "${{ github.event.client_payload.l }}")},
+			{"call-input-values-from-untyped-input", withCall("${{ inputs.minutes }}", "true", "x"), withCall("${{ inputs.untyped }}", "${{ inputs.untyped }}", "${{ inputs.untyped }}")},
+		} {
+			pre, err1 := lintLines(st.precise)
+			post, err2 := lintLines(st.loose)
+			sum.Evaluations++
+			if err1 != nil || err2 != nil || len(pre) > 0 {
+				sum.Dist["site_loosening_precondition_not_met:"+st.name]++
+				continue
+			}
+			sum.Dist["site_loosenings"]++
+			var msgs []string
+			for _, ms := range post {
+				msgs = append(msgs, ms...)
+			}
+			if len(msgs) > 0 {
+				sum.OracleFails = append(sum.OracleFails, failure{What: "a `with:` value of unknown type instead of a fitting known type introduced a diagnostic (" + st.name + ")",
+					Key: "site-loosening:" + st.name, Workflow: st.precise, Loosened: st.loose, Where: st.name, Messages: msgs})
 			}
 		}
 		lintProject = ""
